@@ -261,6 +261,42 @@ pub fn repr_divergence<S: Scanner>(before: &S, after: &S, raw_out: &[Option<Tup>
     None
 }
 
+/// "After reset() a scanner reports, for every subsequent input sequence, exactly what a new scanner
+/// would report": all continuations up to `depth` feeds over `ctrls` (value = 1 + position), with an
+/// optional poll after each feed, are run on copies of the reset scanner and of a new one; the
+/// first difference in what they return is described. Purely behavioural (independent of `==`).
+pub fn post_reset_differential<S: Scanner>(a: &S, b: &S, ch: u8, ctrls: &[u8], depth: usize, poll: bool) -> Option<String> {
+    fn go<S: Scanner>(a: &S, b: &S, ch: u8, ctrls: &[u8], depth: usize, poll: bool, pos: u8, path: &mut Vec<(u8, u8)>) -> Option<String> {
+        if depth == 0 {
+            return None;
+        }
+        for &c in ctrls {
+            let mut x = *a;
+            let mut y = *b;
+            let msg = cc(ch, c, 1 + pos);
+            let ox = x.feed_msg(&msg);
+            let oy = y.feed_msg(&msg);
+            path.push((c, 1 + pos));
+            if ox != oy {
+                return Some(format!("continuation {:?}: the reset scanner returned {:?}, a new scanner {:?}", path, ox, oy));
+            }
+            if poll {
+                let px = x.poll_ch(ch);
+                let py = y.poll_ch(ch);
+                if px != py {
+                    return Some(format!("continuation {:?} then poll: the reset scanner returned {:?}, a new scanner {:?}", path, px, py));
+                }
+            }
+            if let Some(d) = go(&x, &y, ch, ctrls, depth - 1, poll, pos + 1, path) {
+                return Some(d);
+            }
+            path.pop();
+        }
+        None
+    }
+    go(a, b, ch, ctrls, depth, poll, 0, &mut Vec::new())
+}
+
 /// Which rule families a run reports (so that e.g. the C16 run never alarms about a C08 matter).
 #[derive(Clone, Copy, Debug, Default)]
 pub struct Report {
@@ -353,6 +389,22 @@ impl<O: PlainOracle> PlainSys<O> {
 
     fn vio(&self, rule: &str, cls: &str, detail: impl FnOnce() -> String) -> Violation {
         Violation::lazy(rule, format!("{}/{}/{}/{}", self.pid, <O::Sc as Scanner>::NAME, rule, cls), detail)
+    }
+
+    /// distinct controller numbers of the alphabet (continuations of the post-reset differential)
+    fn diff_ctrls(&self) -> Vec<u8> {
+        let mut seen = [false; 128];
+        let mut v = Vec::new();
+        for &(c, _) in &self.alphabet {
+            if !seen[c as usize] {
+                seen[c as usize] = true;
+                v.push(c);
+            }
+        }
+        v
+    }
+    fn diff_depth(&self) -> usize {
+        if self.diff_ctrls().len() > 16 { 2 } else { 3 }
     }
 
     fn do_cc(&self, s: &PState<O>, ctrl: u8, val: u8, expand: bool) -> Step<PState<O>> {
@@ -507,6 +559,12 @@ impl<O: PlainOracle> PlainSys<O> {
                     }
                     sc.reset_all();
                 }
+                if self.report.reset {
+                    let fresh = <O::Sc as Default>::default();
+                    if let Some(d) = post_reset_differential(&sc, &fresh, self.ch, &self.diff_ctrls(), self.diff_depth(), false) {
+                        v.push(self.vio("reset-behaves-like-new", "reset-storm", || format!("after {} resets{}: {}", n, if traffic { " (with a note-on on another channel before each)" } else { "" }, d)));
+                    }
+                }
                 Step { next: Some(PState { sc, m: self.oracle.init() }), obs: 0, violations: v }
             }
             PAct::TouchAll => {
@@ -536,6 +594,9 @@ impl<O: PlainOracle> PlainSys<O> {
                     again.reset_all();
                     if again != sc {
                         v.push(self.vio("copy-evolves-identically", "reset", || "resetting two copies gave different states".to_string()));
+                    }
+                    if let Some(d) = post_reset_differential(&sc, &fresh, self.ch, &self.diff_ctrls(), self.diff_depth(), false) {
+                        v.push(self.vio("reset-behaves-like-new", "reset", || d));
                     }
                 }
                 Step { next: None, obs: 0, violations: v }
